@@ -1,7 +1,7 @@
 #!/bin/bash
 # scripts/run_all.sh [quick|thorough] : run every registered check on /repo, print one line per property
 TIER="${1:-quick}"
-cd /verif || exit 2
+cd "$(dirname "$0")/.." || exit 2
 for i in $(seq -w 1 20); do
   OUT=$(./check C$i --tier "$TIER" 2>&1); RC=$?
   echo "C$i exit=$RC $(echo "$OUT" | grep -c '^VIOLATION') violations $(echo "$OUT" | grep -c '^KNOWN-FINDING') known | $(echo "$OUT" | grep "^C$i tier" | sed 's/.*states=/states=/')"
